@@ -319,7 +319,8 @@ def run_case(gen, idx, rng, tier):
     kind = rng.choice(['single', 'scripted', 'scripted'])
     n = 1 if kind == 'single' else rng.choice([1, 2, 4])
     leases = [(rng.choice([0.0, 0.0, 0.1, 1.0]), rng.choice(COUNTS + [7, 100]),
-               rng.choice([1, 500, 999, 1000, 1500, 2750, 10000, 120250, MAXN])) for _ in range(n)]
+               rng.choice([1, 500, 999, 1000, 1001, 1500, 2750, 4007, 10000, 120250, MAXN, rng.randrange(1, 10 ** 7),
+                           rng.randrange(1, 10 ** 4)])) for _ in range(n)]
     desc = {'publisher': kind, 'leases': leases, 'link': rng.choice(['bytes', 'messages'])}
     got, errs = vloop.run(_responder(rng, desc))
     want = [(c, ttl) for _, c, ttl in leases]
